@@ -128,6 +128,12 @@ func main() {
 		prog.Normalize()
 	}
 
+	if strings.HasPrefix(*dump, "chain:") {
+		lint.DebugChain(prog, strings.TrimPrefix(*dump, "chain:")) // debug-chain
+
+		return
+	}
+
 	if *dump == "inline-stats" {
 		lint.DumpInline(prog)
 
@@ -172,6 +178,7 @@ func main() {
 				"functions_rewritten":   prog.Inline.Functions,
 				"helpers_inlined":       prog.Inline.Callees,
 				"helpers_kept_as_calls": prog.Inline.Skipped,
+				"anchors_found_renamed": prog.Renames,
 			}
 		}
 
@@ -206,6 +213,10 @@ func main() {
 		}
 
 		exit = 1
+	}
+
+	for _, r := range prog.Renames {
+		fmt.Printf("-- anchor found under a new name (same package, receiver and signature): %s\n", r)
 	}
 
 	fmt.Printf("-- normal form: %d call sites inlined in %d functions (%d helpers)\n", prog.Inline.Sites, prog.Inline.Functions, len(prog.Inline.Callees))
